@@ -2206,3 +2206,198 @@ theorem StrOK.toBF {cfg : Cfg} {ctx : Ctx} (h : StrOK cfg ctx) : BF cfg ctx wher
   marker := h.marker
 
 end Operon.Tmpl
+
+namespace Operon.Tmpl
+open Operon.Ribosome
+
+/-! ### `printToks ∘ lex = id`: the theorem about printed tokens is a theorem about template STRINGS -/
+
+theorem stripPrefix_some (p s r : Str) (h : stripPrefix p s = some r) : s = p ++ r := by
+  induction p generalizing s with
+  | nil => cases s <;> simp [stripPrefix] at h <;> simp [h]
+  | cons a p ih =>
+    cases s with
+    | nil => simp [stripPrefix] at h
+    | cons c s =>
+      simp only [stripPrefix] at h
+      split at h
+      · rename_i hac; rw [ih s h, hac]; rfl
+      · cases h
+
+theorem spanP_append (f : Nat → Bool) (s : Str) : (spanP f s).1 ++ (spanP f s).2 = s := by
+  induction s with
+  | nil => rfl
+  | cons c s ih =>
+    simp only [spanP]
+    split
+    · simp [ih]
+    · rfl
+
+theorem matchWordTag_some (cfg : Cfg) (pre s n r : Str) (h : matchWordTag cfg pre s = some (n, r)) :
+    s = pre ++ n ++ RR ++ r := by
+  simp only [matchWordTag] at h
+  cases h1 : stripPrefix pre s with
+  | none => simp [h1] at h
+  | some r1 =>
+    simp only [h1] at h
+    split at h
+    · cases h
+    · cases h2 : stripPrefix RR (spanP cfg.isWord r1).2 with
+      | none => simp [h2] at h
+      | some r3 =>
+        simp only [h2, Option.some.injEq, Prod.mk.injEq] at h
+        have e1 := stripPrefix_some _ _ _ h1
+        have e2 := stripPrefix_some _ _ _ h2
+        have e3 := spanP_append cfg.isWord r1
+        rw [e1, ← e3, e2, h.1, h.2]; simp
+
+theorem matchHead_some (cfg : Cfg) (pre s ws n r : Str) (h : matchHead cfg pre s = some (ws, n, r)) :
+    s = pre ++ ws ++ n ++ RR ++ r := by
+  simp only [matchHead] at h
+  cases h1 : stripPrefix pre s with
+  | none => simp [h1] at h
+  | some r1 =>
+    simp only [h1] at h
+    split at h
+    · cases h
+    · split at h
+      · cases h
+      · cases h2 : stripPrefix RR (spanP cfg.isWord (spanP cfg.isSpace r1).2).2 with
+        | none => simp [h2] at h
+        | some r3 =>
+          simp only [h2, Option.some.injEq, Prod.mk.injEq] at h
+          have e1 := stripPrefix_some _ _ _ h1
+          have e2 := stripPrefix_some _ _ _ h2
+          have e3 := spanP_append cfg.isSpace r1
+          have e4 := spanP_append cfg.isWord (spanP cfg.isSpace r1).2
+          rw [e1, ← e3, ← e4, e2, h.1, h.2.1, h.2.2]; simp
+
+theorem matchDefault_some (cfg : Cfg) (s n a r : Str) (h : matchDefault cfg s = some ((n, a), r)) :
+    s = pipeTag n a ++ r := by
+  simp only [matchDefault] at h
+  cases h1 : stripPrefix LL s with
+  | none => simp [h1] at h
+  | some r1 =>
+    simp only [h1] at h
+    split at h
+    · cases h
+    · have e3 := spanP_append cfg.isWord r1
+      cases h4 : (spanP cfg.isWord r1).2 with
+      | nil => simp [h4] at h
+      | cons c r2 =>
+        simp only [h4] at h
+        split at h
+        · rename_i hc
+          split at h
+          · cases h
+          · cases h2 : stripPrefix RR (spanP (fun x => x != 125) r2).2 with
+            | none => simp [h2] at h
+            | some r3 =>
+              simp only [h2, Option.some.injEq, Prod.mk.injEq] at h
+              have e1 := stripPrefix_some _ _ _ h1
+              have e2 := stripPrefix_some _ _ _ h2
+              have e5 := spanP_append (fun x => x != 125) r2
+              rw [e1, ← e3, h4, ← e5, e2, hc, ← h.1.1, ← h.1.2, ← h.2]; simp [pipeTag]
+        · cases h
+
+/-- whatever the lexer recognises at the start of a text prints back to exactly the consumed text -/
+theorem lexTag_some (cfg : Cfg) (s : Str) (t : Tok) (r : Str) (h : lexTag cfg s = some (t, r)) : s = t.print ++ r := by
+  unfold lexTag at h
+  split at h
+  · rename_i ws n r' hm; cases h; simpa [Tok.print] using matchHead_some cfg _ _ _ _ _ hm
+  split at h
+  · rename_i r' hm; cases h; simpa [Tok.print] using stripPrefix_some _ _ _ hm
+  split at h
+  · rename_i r' hm; cases h; simpa [Tok.print] using stripPrefix_some _ _ _ hm
+  split at h
+  · rename_i ws n r' hm; cases h; simpa [Tok.print] using matchHead_some cfg _ _ _ _ _ hm
+  split at h
+  · rename_i r' hm; cases h; simpa [Tok.print] using stripPrefix_some _ _ _ hm
+  split at h
+  · rename_i n r' hm; cases h; simpa [Tok.print] using matchWordTag_some cfg _ _ _ _ hm
+  split at h
+  · rename_i n r' hm; cases h; simpa [Tok.print] using matchWordTag_some cfg _ _ _ _ hm
+  split at h
+  · rename_i n a r' hm; cases h; simpa [Tok.print] using matchDefault_some cfg _ _ _ _ hm
+  split at h
+  · rename_i n r' hm; cases h; simpa [Tok.print, tagOf] using matchWordTag_some cfg _ _ _ _ hm
+  split at h
+  · rename_i r' hm; cases h; simpa [Tok.print] using stripPrefix_some _ _ _ hm
+  · cases h
+
+def unscan : List (Sum Nat Tok) → Str
+  | [] => []
+  | .inl c :: r => c :: unscan r
+  | .inr t :: r => t.print ++ unscan r
+
+/-- the lexer only ever returns tag tokens, whose printed form is not empty -/
+theorem lexTag_print_ne (cfg : Cfg) (s : Str) (t : Tok) (r : Str) (h : lexTag cfg s = some (t, r)) : 0 < t.print.length := by
+  unfold lexTag at h
+  split at h
+  · cases h; simp [Tok.print, IFH]
+  split at h
+  · cases h; simp [Tok.print, ELSE]
+  split at h
+  · cases h; simp [Tok.print, ENDIF]
+  split at h
+  · cases h; simp [Tok.print, EACHH]
+  split at h
+  · cases h; simp [Tok.print, ENDEACH]
+  split at h
+  · cases h; simp [Tok.print, INCH]
+  split at h
+  · cases h; simp [Tok.print, OPTH]
+  split at h
+  · cases h; simp [Tok.print, pipeTag, LL]
+  split at h
+  · cases h; simp [Tok.print, tagOf, LL]
+  split at h
+  · cases h; simp [Tok.print, tagOf, LL]
+  · cases h
+
+theorem unscan_scan (cfg : Cfg) : ∀ (f : Nat) (s : Str), s.length ≤ f → unscan (scan (lexTag cfg) f s) = s := by
+  intro f
+  induction f with
+  | zero => intro s hs; cases s with
+    | nil => rfl
+    | cons c s => simp at hs
+  | succ f ih =>
+    intro s hs
+    cases s with
+    | nil => rfl
+    | cons c s =>
+      simp only [scan]
+      cases hm : lexTag cfg (c :: s) with
+      | none =>
+        simp only [unscan]
+        rw [ih s (by simpa using hs)]
+      | some p =>
+        obtain ⟨t, r⟩ := p
+        have e := lexTag_some cfg _ _ _ hm
+        have hp := lexTag_print_ne cfg _ _ _ hm
+        simp only [unscan]
+        have hl : r.length ≤ f := by
+          have : (c :: s).length = t.print.length + r.length := by rw [e]; simp
+          simp at this hs; omega
+        rw [ih r hl]
+        exact e.symm
+
+theorem printToks_coalesce (l : List (Sum Nat Tok)) : printToks (coalesce l) = unscan l := by
+  induction l with
+  | nil => rfl
+  | cons x l ih =>
+    cases x with
+    | inr t => simp [coalesce, unscan, printToks_cons, ih]
+    | inl c =>
+      simp only [coalesce, unscan]
+      rw [← ih]
+      split
+      · rename_i s r' heq; simp [heq, printToks_cons, Tok.print]
+      · simp [printToks_cons, Tok.print]
+
+/-- the lexer loses nothing: printing the tokens of a text gives the text back -/
+theorem print_lex (cfg : Cfg) (s : Str) : printToks (lex cfg s) = s := by
+  unfold lex scanStr
+  rw [printToks_coalesce, unscan_scan cfg _ s (by omega)]
+
+end Operon.Tmpl
